@@ -1,7 +1,8 @@
 import CrabProofs.Lemmas.FunctorVPartInst
+import CrabProofs.Lemmas.FunctorUfInst
 
 /-!
-# C03 — soundness under arbitrary histories, functor part 2: `value_partitioning_domain`
+# C03 — soundness under arbitrary histories, functor part 2: `value_partitioning_domain`, `uf_domain`
 
 Model: `CrabModel/Dom/Functors/ValuePartitioning.lean` (the code of
 include/crab/domains/value_partitioning_domain.hpp as it is, over ANY lawful base `VDom V S`).
@@ -11,17 +12,25 @@ when there is no partitioning variable (this is what keeps the CRAB_ERROR branch
 `merge_partitions()` / `remove_partitions()` unreachable).
 
 DEFECT (code as it is, replayed on the real code with
-`python3 tools/hrun.py h_dom2_27 --source h_dom2 --define -DVDOM=27 -- --ops f`, request line in the
-final report of the component): the merge loop of `update_partitions()` does not compare a merged
+`python3 tools/hrun.py h_dom2_27 --source h_dom2 --define -DVDOM=27 -- --ops f` where `f` holds the
+request line below: the final `(meet 1 0 2)` answers bottom although `(v0,v1,v2) = (5,5,0)` is in
+both operands, and value #0 is not `<=` itself):
+
+    (dom2.hist vpart-intervals (params) (ops (assign 0 v0 (lin 0)) (assume 0 (le (lin 0 (-1 v1))) (le (lin -10 (1 v1)))) (assign 0 v2 (lin 0)) (vpstart 0 v0) (top 1) (assign 1 v0 (lin 1)) (assume 1 (le (lin 1 (-1 v1))) (le (lin -2 (1 v1)))) (assign 1 v2 (lin 0)) (vpstart 1 v0) (join 0 0 1) (top 1) (assign 1 v0 (lin 2)) (assume 1 (le (lin 5 (-1 v1))) (le (lin -6 (1 v1)))) (assign 1 v2 (lin 1)) (vpstart 1 v0) (join 0 0 1) (assign 0 v0 (lin 0 (1 v1))) (assign 2 v0 (lin 0)) (assume 2 (le (lin 0 (-1 v1))) (le (lin -10 (1 v1)))) (assign 2 v2 (lin 1)) (vpstart 2 v0) (top 3) (assign 3 v0 (lin 1)) (assume 3 (le (lin 1 (-1 v1))) (le (lin -2 (1 v1)))) (assign 3 v2 (lin 1)) (vpstart 3 v0) (join 2 2 3) (top 3) (assign 3 v0 (lin 2)) (assume 3 (le (lin 5 (-1 v1))) (le (lin -6 (1 v1)))) (assign 3 v2 (lin 0)) (vpstart 3 v0) (join 2 2 3) (assign 2 v0 (lin 0 (1 v1))) (meet 1 0 2)))
+
+Suggested fix (checked on a private copy of the header: the replay and 2 x 3000 random histories of
+vpart-intervals / pvpart-sdbm are clean): in the merge loop of `update_partitions()` replace
+`if (it->ub >= next_it->lb) { merge; it = erase(next_it); --it; }` by
+`while (next_it != end && it->ub >= next_it->lb) { merge; next_it = erase(next_it); }`.
+
+What goes wrong: the merge loop of `update_partitions()` does not compare a merged
 partition with its new successor, so intervals can overlap afterwards
 (`C03.vpart_update_disjoint_counterexample`); the element-wise branch of `apply_binary_op`
 (`&`, `&&`, `&=`) then pairs the partitions by position although a state can sit in partition `i`
 of the left and partition `j ≠ i` of the right operand: the meet of two values that share a
 state is bottom (`C03.vpart_meet_sound_counterexample`, `C03.vpart_history_sound_counterexample`).
 -/
-namespace Crab
-namespace Dom
-namespace Fct
+open Crab Crab.Dom Crab.Dom.Fct
 
 variable {V S : Type} [DecidableEq V] {D : VDom V S}
 
@@ -161,6 +170,11 @@ def C03.vpart_update_disjoint_Statement : Prop :=
   ∀ (V S : Type) [DecidableEq V] (D : VDom V S) (a : VP D), a.var ≠ none →
     VP.KeysDisjoint (VP.updateParts a).parts
 
+/-- with at most two partitions left after dropping the empty ones, the loop does separate them -/
+theorem C03.vpart_update_disjoint_partial {a : VP D} {x : V} (hv : a.var = some x)
+    (h : (VP.refreshGo x 0 a.parts).1.length ≤ 2) : VP.KeysDisjoint (VP.updateParts a).parts :=
+  VP.updateParts_short_disjoint hv h
+
 open VPartEx in
 theorem C03.vpart_update_disjoint_counterexample : ¬ C03.vpart_update_disjoint_Statement := by
   intro h
@@ -263,19 +277,6 @@ theorem C03.vpart_history_inv (ops : List (VP.Op D)) (p : Pool (VP D)) (hI : ∀
   obtain ⟨op, _, rfl⟩ := hst
   exact C03.vpart_inv_step op
 
-namespace VPartEx
-
-/-- `x := y` as an operation on slot `d` -/
-def opXY (d : Nat) : VP.Op constVDom := .assign d 0 (cAssignV 0 1) (fun s s' => s' = s.set 0 (s 1))
-
-/-- slots 0, 1: the two values with three separated partitions -/
-def pool0 : Pool (VP constVDom) := fun i => if i = 0 then W0 else if i = 1 then Z0 else VP.top
-
-/-- slot 0 holds `(0,5,0)`, slot 1 holds `(2,5,0)` -/
-def cpool0 : CPool (St V3) := fun i s => (i = 0 ∧ s = st 0 5 0) ∨ (i = 1 ∧ s = st 2 5 0)
-
-end VPartEx
-
 open VPartEx in
 /-- three steps from a pool whose intervals are separated and cover their partitions:
     `x := y` on both values, then `&`: the state `(5,5,0)` is reachable in both, the result is
@@ -321,51 +322,14 @@ theorem C03.vpart_history_sound_counterexample : ¬ C03.vpart_history_sound_Stat
   exact VP.not_γ_of_isBottom (by decide) _ h1
 
 /-! ### non-vacuity over the interval instance -/
-namespace C03VPartEx
-open VPartEx
-
-def keys (a : VP itvVDom) : List Itv := a.parts.map (·.key)
-def vals (a : VP itvVDom) : List Itv := a.parts.map (·.val.1)
-
-/-- slot 0: `x = 0`, slot 1: `x ∈ [5,6]`, no partitioning yet -/
-def pool : Pool (VP itvVDom) := fun i =>
-  if i = 0 then ⟨none, [⟨Itv.top, WItv.mk 0 0⟩]⟩ else if i = 1 then ⟨none, [⟨Itv.top, WItv.mk 5 6⟩]⟩ else VP.top
-
-def cpool : CPool Int := fun i s => (i = 0 ∧ s = 0) ∨ (i = 1 ∧ s = 5)
-
-/-- partition start on both, `|`, `x := x + 6` -/
-def ops : List (VP.Op itvVDom) :=
-  [.vpStart 0 (), .vpStart 1 (), .join 2 0 1, .assign 2 () (itvAddK 6) (fun s s' => s' = s + 6)]
-
-/-- afterwards: partition end on a copy, `&` of the copy with the partitioned value, `&` of the
-    partitioned value with itself (element-wise: the guard `histOk` fires) -/
-def ops2 : List (VP.Op itvVDom) := ops ++ [.copy 3 2, .vpEnd 3 (), .meet 3 3 2]
+section C03VPartEx
+open VPartEx C03VPartEx
 
 example : keys (runHist pool (VP.toHist ops) 2) = [Itv.single 6, ⟨.fin 11, .fin 12⟩] ∧
     vals (runHist pool (VP.toHist ops) 2) = [Itv.single 6, ⟨.fin 11, .fin 12⟩] ∧
     vals (runHist pool (VP.toHist ops2) 3) = [⟨.fin 6, .fin 12⟩] ∧
     VP.histOk pool ops2 = true ∧ VP.histOk pool (ops ++ [.meet 3 2 2]) = false := by decide
 
-theorem ops_baseSound : ∀ op ∈ ops, op.BaseSound := by
-  intro op hop
-  simp only [ops, List.mem_cons, List.mem_nil_iff, or_false] at hop
-  rcases hop with rfl | rfl | rfl | rfl
-  · trivial
-  · trivial
-  · trivial
-  · exact itvAddK_sound 6
-
-theorem pool_inv : ∀ i, (pool i).Inv := by
-  intro i; unfold pool
-  split
-  · exact VP.inv_single _ _
-  · split <;> exact VP.inv_single _ _
-
-theorem pool_sound : ∀ i s, cpool i s → VP.γ (pool i) s := by
-  intro i s hc
-  rcases hc with ⟨rfl, rfl⟩ | ⟨rfl, rfl⟩
-  · exact γ_of_iMem (by decide)
-  · exact γ_of_iMem (by decide)
 
 /-- `vpart_history_sound_partial` applies: the runs `0 ↦ 6` and `5 ↦ 11` are in the result -/
 example : VP.γ (runHist pool (VP.toHist ops) 2) 6 ∧ VP.γ (runHist pool (VP.toHist ops) 2) 11 := by
@@ -385,6 +349,176 @@ example : VP.γ (runHist pool (VP.toHist ops) 2) 6 ∧ VP.γ (runHist pool (VP.t
 
 end C03VPartEx
 
-end Fct
-end Dom
-end Crab
+/-! # `uf_domain`
+
+Model `Crab.Dom.Fct.Uf` (`CrabModel/Dom/Functors/Uf.lean`): variables ↦ Herbrand terms (as trees),
+for EVERY interpretation `I` of the symbols, any set of variables and symbols, any selection
+function `choose` of `choose_non_var` that returns one of its candidates.  `UF.WF` = every term
+variable of the map is below `m_free_var` (what makes `fresh_var()` fresh). -/
+section uf
+open Uf
+variable {V F : Type} [DecidableEq V] [DecidableEq F] (I : F → List Int → Int)
+
+/-- `assign`, `apply` (arithmetic, bitwise, casts), `set(x, symbol)`, `set(x, functor, args)`,
+    `array_load`, `ref_load`, `assign_bool_var`, `apply_binary_bool`: `x := e`, `e` read by `I` -/
+theorem C03.uf_assign_sound (x : V) (e : Exp V F) {a : UF V F} (hw : a.WF) (s : St V) :
+    UF.γ I a s → UF.γ I (UF.assign x e a) (s.set x (e.eval I s)) := assign_sound I x e hw s
+
+/-- the tree `build_linexpr` builds means the linear expression when `+`, `*` mean themselves -/
+theorem C03.uf_assign_linear (add mul : F) (hadd : ∀ a b, I add [a, b] = a + b)
+    (hmul : ∀ a b, I mul [a, b] = a * b) (x : V) (c : Int) (ts : List (Int × V)) {a : UF V F} (hw : a.WF)
+    (s : St V) : UF.γ I a s → UF.γ I (UF.assign x (Exp.ofLin add mul c ts) a) (s.set x (linVal s c ts)) := by
+  intro hg
+  rw [← eval_ofLin I add mul hadd hmul s c ts]
+  exact assign_sound I x _ hw s hg
+
+/-- `operator-=` (havoc), `forget`, `project` -/
+theorem C03.uf_forget_sound (x : V) {a : UF V F} (s : St V) (k : Int) :
+    UF.γ I a s → UF.γ I (UF.forgetVar x a) (s.set x k) := forgetVar_sound I x s k
+
+theorem C03.uf_forget_list_sound (xs : List V) {a : UF V F} (s s' : St V) :
+    UF.γ I a s → (∀ v, v ∉ xs → s' v = s v) → UF.γ I (UF.forget xs a) s' := forget_sound I xs s s'
+
+theorem C03.uf_project_sound (xs : List V) {a : UF V F} (s s' : St V) :
+    UF.γ I a s → (∀ v, v ∈ xs → s' v = s v) → UF.γ I (UF.project xs a) s' := project_sound I xs s s'
+
+/-- `rename(from, to)` when it does not raise CRAB_ERROR: the loop, pair by pair -/
+theorem C03.uf_rename_sound (ps : List (V × V)) {a a' : UF V F} (h : UF.rename ps a = some a') (s s' : St V) :
+    UF.γ I a s → UF.RenRel ps s s' → UF.γ I a' s' := rename_sound I ps h s s'
+
+/-- `expand(x, y)` in the reading of the drivers of this project (`y` receives the value of `x`) -/
+theorem C03.uf_expand_sound (x y : V) {a : UF V F} (hw : a.WF) (s : St V) :
+    UF.γ I a s → UF.γ I (UF.expand x y a) (s.set y (s x)) := expand_sound I x y hw s
+
+/-- `operator+=`: `x == y` (union + rebuilt terms), `x != y` (bottom when both have the same
+    term), anything else ignored -/
+theorem C03.uf_add_sound {choose : List (Term F) → Option (Term F)} (hch : ChooseOK choose)
+    (cs : List (UF.Cst V)) {a : UF V F} (hw : a.WF) (s : St V) :
+    UF.γ I a s → (∀ c ∈ cs, c.holds s) → UF.γ I (UF.addCsts choose cs a) s :=
+  fun hg hc => (addCsts_sound I hch cs hw s hg hc).1
+
+/-- `operator|`, `|=`, `||`, `widening_thresholds` (anti-unification) -/
+theorem C03.uf_join_sound {a b : UF V F} (hb : b.WF) (s : St V) :
+    (UF.γ I a s ∨ UF.γ I b s) → UF.γ I (UF.join a b) s := join_sound I hb s
+
+/-- `operator&`, `&=`, `&&` (the pseudo-meet) -/
+theorem C03.uf_meet_sound {choose : List (Term F) → Option (Term F)} (hch : ChooseOK choose) {a b : UF V F}
+    (ha : a.WF) (s : St V) : UF.γ I a s → UF.γ I b s → UF.γ I (UF.meet choose a b) s := meet_sound I hch ha s
+
+/-- `to_linear_constraint_system()`: every exported equality holds -/
+theorem C03.uf_equalities_sound {a : UF V F} {x y : V} (h : (x, y) ∈ UF.equalities a) (s : St V) :
+    UF.γ I a s → s x = s y := equalities_sound I h s
+
+/-- every operation keeps the term variables below `m_free_var` -/
+theorem C03.uf_inv_step {choose : List (Term F) → Option (Term F)} (hch : ChooseOK choose) (op : UF.Op V F) :
+    Step.Preserves UF.WF (UF.Op.toStep I choose op) := by
+  cases op with
+  | assign d x e => exact fun a ha => assign_wf x e ha
+  | forgetVar d x => exact fun a ha => forgetVar_wf x ha
+  | forget d xs => exact fun a ha => forget_wf xs ha
+  | project d xs => exact fun a ha => project_wf xs ha
+  | rename d ps =>
+    intro a ha
+    show ((UF.rename ps a).getD UF.top).WF
+    cases h : UF.rename ps a with
+    | none => exact wf_top
+    | some a' => exact rename_wf ps h ha
+  | expand d x y => exact fun a ha => expand_wf x y ha
+  | add d cs => exact fun a ha => addCsts_wf choose cs ha
+  | join d a b => exact fun a b ha hb => join_wf ha hb
+  | meet d a b => exact fun a b ha hb => meet_wf hch ha hb
+  | copy d s => trivial
+  | setTop d => exact fun _ _ => wf_top
+  | setBottom d => trivial
+
+theorem C03.uf_step_sound {choose : List (Term F) → Option (Term F)} (hch : ChooseOK choose) (op : UF.Op V F) :
+    Step.SoundOn UF.WF (UF.γ I) (UF.Op.toStep I choose op) := by
+  cases op with
+  | assign d x e => exact fun a s s' ha hg hr => hr ▸ assign_sound I x e ha s hg
+  | forgetVar d x => exact fun a s s' _ hg hr => by obtain ⟨k, rfl⟩ := hr; exact forgetVar_sound I x s k hg
+  | forget d xs => exact fun a s s' _ hg hr => forget_sound I xs s s' hg hr
+  | project d xs => exact fun a s s' _ hg hr => project_sound I xs s s' hg hr
+  | rename d ps =>
+    intro a s s' _ hg hr
+    show UF.γ I ((UF.rename ps a).getD UF.top) s'
+    cases h : UF.rename ps a with
+    | none => exact γ_top I s'
+    | some a' => exact rename_sound I ps h s s' hg hr
+  | expand d x y => exact fun a s s' ha hg hr => hr ▸ expand_sound I x y ha s hg
+  | add d cs => exact fun a s s' ha hg hr => hr.1 ▸ (addCsts_sound I hch cs ha s hg hr.2).1
+  | join d a b => exact fun a b s _ hb h => join_sound I hb s h
+  | meet d a b => exact fun a b s ha _ h1 h2 => meet_sound I hch ha s h1 h2
+  | copy d s => trivial
+  | setTop d => exact fun _ _ s' _ _ _ => γ_top I s'
+  | setBottom d => trivial
+
+/-- C03 for `uf_domain`: every interpretation of the symbols, every well-formed pool, history
+    length and interleaving of assignments / applications of (un)interpreted functions, havoc,
+    forget, project, rename, expand, equalities and disequalities, `|` (= widening), `&`
+    (= narrowing), copies, `set_to_top/bottom`. -/
+theorem C03.uf_history_sound {choose : List (Term F) → Option (Term F)} (hch : ChooseOK choose)
+    (ops : List (UF.Op V F)) (p : Pool (UF V F)) (c : CPool (St V)) (hI : ∀ i, (p i).WF)
+    (h0 : ∀ i s, c i s → UF.γ I (p i) s) :
+    ∀ i s, collHist c (UF.toHist I choose ops) i s →
+      UF.γ I (runHist p (UF.toHist I choose ops) i) s ∧ (runHist p (UF.toHist I choose ops) i).WF := by
+  intro i s hc
+  constructor
+  · refine history_sound_on UF.WF (UF.γ I) _ ?_ ?_ p c hI h0 i s hc
+    · intro st hst
+      simp only [UF.toHist, List.mem_map] at hst
+      obtain ⟨op, _, rfl⟩ := hst
+      exact C03.uf_step_sound I hch op
+    · intro st hst
+      simp only [UF.toHist, List.mem_map] at hst
+      obtain ⟨op, _, rfl⟩ := hst
+      exact C03.uf_inv_step I hch op
+  · apply runHist_preserves UF.WF _ _ p hI
+    intro st hst
+    simp only [UF.toHist, List.mem_map] at hst
+    obtain ⟨op, _, rfl⟩ := hst
+    exact C03.uf_inv_step I hch op
+
+end uf
+
+/-! ### non-vacuity: `uf_domain` over variables and symbols `Nat` -/
+section C03UfEx
+open Uf C03UfEx
+
+/-- hash-consing = equal trees: `v1` and `v3` get the same term, the export says `v1 = v3`;
+    `assume v0 == v2` keeps the classes but rebuilds every other variable as a fresh term variable
+    and loses the constant (printed by the real code for the same statements:
+    `{v0 -> $VAR_1, v1 -> $VAR_2, v2 -> $VAR_1, v3 -> $VAR_2}`); `v1 != v3` then gives bottom -/
+example : terms (run ops 0) = some [(3, .app 0 [.const 5, .var 0]), (1, .app 0 [.const 5, .var 0]),
+      (2, .var 0), (0, .const 5)] ∧
+    UF.equalities (run ops 0) = [(3, 1), (1, 3)] ∧
+    terms (run (ops ++ [.add 0 [.eq 0 2]]) 0) = some [(3, .var 1), (1, .var 1), (2, .var 2), (0, .var 2)] ∧
+    UF.isBottom (run (ops ++ [.add 0 [.eq 0 2], .add 0 [.ne 1 3]]) 0) = true := by decide
+
+
+/-- `|` of the runs with `v0 := 5` and `v0 := 6` keeps `v1 = v3` (anti-unification with memo);
+    `&` of `{v0 -> 5}` with itself is `{v0 -> $VAR}` (as printed by the real code) -/
+example : terms (UF.join (run ops 0) (run ((UF.Op.assign 0 0 (.const 6)) :: ops.tail) 0)) =
+      some [(3, .app 0 [.var 0, .var 1]), (1, .app 0 [.var 0, .var 1]), (2, .var 1), (0, .var 0)] ∧
+    terms (UF.meet ch (run [.assign 0 0 (.const 5)] 0) (run [.assign 0 0 (.const 5)] 0)) =
+      some [(0, .var 0)] := by decide
+
+
+/-- `uf_history_sound` applies: the run `(0,0,2,0) ↦ (5,7,2,7)` is in the result -/
+example : UF.γ I0 (run ops 0) sfin := by
+  have h := C03.uf_history_sound I0 ch_ok ops (fun _ => UF.top) (fun _ s => s = fun v => if v = 2 then 2 else 0)
+    (fun _ => wf_top) (fun _ s _ => γ_top I0 s) 0 sfin
+  refine (h ?_).1
+  simp only [ops, UF.toHist, List.map, collHist, List.foldl, UF.Op.toStep, Step.coll, CPool.set, if_true]
+  refine ⟨_, ⟨_, ⟨_, rfl, rfl⟩, rfl⟩, ?_⟩
+  funext v
+  simp only [St.set, Exp.eval, Exp.evalL, I0, sfin]
+  by_cases h3 : v = 3
+  · subst h3; decide
+  · by_cases h1 : v = 1
+    · subst h1; decide
+    · by_cases h0 : v = 0
+      · subst h0; decide
+      · simp [h3, h1, h0]
+
+end C03UfEx
+
